@@ -8,6 +8,7 @@ package node
 //@ func commonValidation0(ctx)
 //@   nopanic
 //@   requires wf_ctx(ctx)
+//@   assumes noalias(ctx)
 //@   modifies ctx.SenderPubKey
 //@   allocates uint256.Int
 //@   ensures tx_same(ctx.Tx)                                                                                 [C03,C05]
@@ -19,6 +20,7 @@ package node
 //@ func commonValidation1(ctx)
 //@   nopanic
 //@   requires wf_ctx(ctx)
+//@   assumes noalias(ctx)
 //@   requires u(ctx.Tx.GasPrice) < 2^128 && ctx.Tx.Gas < 2^63 && u(ctx.Tx.Amount) < 2^255
 //@   allocates uint256.Int
 //@   ensures result == nil ==> ctx.Sender.Nonce == ctx.Tx.Nonce                                              [C04]
@@ -27,6 +29,7 @@ package node
 //@ func validateTrx(ctx)
 //@   nopanic
 //@   requires wf_ctx(ctx)
+//@   assumes noalias(ctx)
 //@   modifies ctx.SenderPubKey, lastigas
 //@   allocates uint256.Int
 //@   ensures tx_same(ctx.Tx)                                                                                 [C03,C05]
@@ -39,6 +42,7 @@ package node
 //@ func postRunTrx(ctx)
 //@   nopanic
 //@   requires wf_ctx(ctx)
+//@   assumes noalias(ctx)
 //@   requires u(ctx.Tx.GasPrice) < 2^128 && ctx.Tx.Gas < 2^63
 //@   requires native_tx(ctx) ==> fee_of(ctx.Tx) <= u(ctx.Sender.Balance)
 //@   modifies everything
@@ -52,6 +56,7 @@ package node
 //@ func runTrx(ctx)
 //@   nopanic
 //@   requires wf_ctx(ctx) && ctx.GasUsed == 0
+//@   assumes noalias(ctx)
 //@   requires ctx.Exec ==> sig_ok(ctx.Tx, ctx.ChainID)                                                       [C03]
 //@   requires ctx.Sender.Nonce == ctx.Tx.Nonce                                                               [C04]
 //@   requires fee_of(ctx.Tx) + u(ctx.Tx.Amount) <= u(ctx.Sender.Balance) && u(ctx.Tx.GasPrice) < 2^128 && ctx.Tx.Gas < 2^63
@@ -67,6 +72,7 @@ package node
 //@ func (txe *TrxExecutor) ExecuteSync(ctx)
 //@   nopanic
 //@   requires wf_ctx(ctx) && ctx.GasUsed == 0
+//@   assumes noalias(ctx)
 //@   modifies everything
 //@   preserves Trx.*, govGasPrice, govMinTrxGas, TrxContext.Tx, TrxContext.Sender, TrxContext.Exec
 //@   ensures result == nil && (ctx.Exec || old(native_tx(ctx))) ==> old(ctx.Sender.Nonce) == ctx.Tx.Nonce && (ctx.Sender.Nonce == old(ctx.Sender.Nonce) + 1 || old(ctx.Sender.Nonce) == 18446744073709551615)   [C04]
